@@ -896,8 +896,9 @@ def readTextData (i : Info) (st : Settings) (dimx : Int) (sl : Int) (srcCh : Nat
     let d ← textRows i st dimx sl.toNat srcCh site rowsSkip false 0 row d
     textRows i st dimx sl.toNat srcCh site rowsRead true 0 row d
 
-/-- in-place manipulators of a bit row: negate_bits then swap_half_bytes -/
-def manipBits (row : List Nat) : List Nat := row.map (fun b => let n := 255 - b; n % 16 * 16 + n / 16)
+/-- in-place manipulators of a bit row: negate_bits then mirror_bits
+    (since /repo fedfb71 / c6cf4c1; before that the second one was swap_half_bytes) -/
+def manipBits (row : List Nat) : List Nat := row.map (fun b => Bmp.mirror8 (255 - b))
 
 def bitsOf (row : List Nat) : List Nat :=
   row.flatMap (fun b => [b % 2, b / 2 % 2, b / 4 % 2, b / 8 % 2, b / 16 % 2, b / 32 % 2, b / 64 % 2, b / 128 % 2])
